@@ -68,10 +68,12 @@ class IkeSaController:
         # generate the reply (if any)
         reply = ike_sa.process_message(data)
 
-        # if rekeyed, add the new IkeSa
-        if ike_sa.state in (IkeSa.State.REKEYED, IkeSa.State.DEL_AFTER_REKEY_IKE_SA_REQ_SENT):
+        # if rekeyed, add the new IkeSa (only once, as further messages can still arrive for the old one)
+        if (ike_sa.state in (IkeSa.State.REKEYED, IkeSa.State.DEL_AFTER_REKEY_IKE_SA_REQ_SENT)
+                and ike_sa.new_ike_sa is not None):
             self.ike_sas.append(ike_sa.new_ike_sa)
             logging.info(f'IKE SA={ike_sa.new_ike_sa} created by rekey. Count={len(self.ike_sas)}')
+            ike_sa.new_ike_sa = None
 
         # if the IKE_SA needs to be closed
         if ike_sa.state == IkeSa.State.DELETED:
